@@ -131,7 +131,7 @@ def lock_static(job, ev, ctx):
             open(w + '/LockOrder.cfg', 'w').write('SPECIFICATION Spec\n')
             p = subprocess.run(cmd[:-3] + ['-config', 'LockOrder.cfg', 'LockOrder'], cwd=w, capture_output=True, text=True, timeout=300)
             o2 = re.sub(r'\s+', ' ', p.stdout + p.stderr)
-            mc = re.search(r'<< "LOCKCYCLE", (\{[^}]*\}) >>', o2)
+            mc = re.search(r'<< ?"LOCKCYCLE", (\{[^}]*\}) ?>>', o2)
             if not mc:
                 raise api['Infra']('lock order evaluation failed:\n' + (p.stdout + p.stderr)[-2000:])
             cyc = re.findall(r'"([^"]+)"', mc.group(1))
@@ -143,7 +143,97 @@ def lock_static(job, ev, ctx):
     return viol
 
 
+def race_job(job, ev, ctx):
+    """C11: the concurrent drivers built with the race detector.  A report whose two accesses are both in
+    library code is a violation, identified by the pair of source lines; harness-only reports are ours."""
+    import os, re, shutil, subprocess
+    api = ctx['api']
+    env = dict(os.environ, GOFLAGS='-mod=mod', GOPROXY='off', GOSUMDB='off', GOTOOLCHAIN='local')
+    shutil.copy('/repo/go.sum', '/verif/harness/go.sum')
+    binp = api['BUILD'] + '/harness.race.test'
+    p = subprocess.run(['go1.26.8', 'test', '-c', '-race', '-tags', 'verif', '-o', binp, '.'], cwd='/verif/harness', env=env, capture_output=True, text=True)
+    if p.returncode != 0:
+        raise api['Infra']('race build failed:\n' + (p.stdout + p.stderr)[-3000:])
+    outdir = '%s/out/%s-race' % (api['BUILD'], ctx['pid'])
+    shutil.rmtree(outdir, ignore_errors=True)
+    os.makedirs(outdir)
+    viol = []
+    tests = job.get('tests', ['TestConcurrent'])
+    e2 = dict(env, VERIF_OUT=outdir, VERIF_TIER=ctx['tier'], VERIF_SEED=str(ctx['seed']), VERIF_N=str(job.get('n', {}).get(ctx['tier'], 10)))
+    try:
+        p = subprocess.run([binp, '-test.run', '^(' + '|'.join(tests) + ')$', '-test.count=1', '-test.timeout', '1500s'],
+                           cwd='/verif/harness', env=e2, capture_output=True, text=True, timeout=1600)
+    except subprocess.TimeoutExpired:
+        raise api['Infra']('race run timed out')
+    out = p.stdout + p.stderr
+    blocks = out.split('WARNING: DATA RACE')[1:]
+    seen = set()
+    for b in blocks:
+        b = b.split('==================')[0]
+        acc = []
+        for part in re.split(r'\n\n', b)[:2]:
+            fr = re.findall(r'\n\s+(\S+)\(\)\n\s+(/\S+):(\d+)', part)
+            lib = [x for x in fr if x[1].startswith('/repo/')]
+            if fr:
+                acc.append(lib[0] if lib else None)
+        if len(acc) == 2 and all(acc):
+            key = ' | '.join(sorted('%s:%s' % (a[1].replace('/repo/', ''), a[2]) for a in acc))
+            if key not in seen:
+                seen.add(key)
+                viol.append({'kind': 'race', 'key': 'race ' + key, 'what': 'data race inside the library between ' + key, 'detail': b[:6000]})
+        elif len(acc) == 2 and not any(acc):
+            raise api['Infra']('data race inside the harness itself:\n' + b[:3000])
+        elif acc:
+            key = ' | '.join(sorted('%s:%s' % (a[1].replace('/repo/', ''), a[2]) for a in acc if a))
+            if key not in seen:
+                seen.add(key)
+                viol.append({'kind': 'race', 'key': 'race ' + key, 'what': 'data race involving library code at ' + key, 'detail': b[:6000]})
+    if p.returncode != 0 and not blocks:
+        if 'panic:' in out or 'fatal error:' in out:
+            viol.append({'kind': 'crash', 'key': 'crash concurrent', 'what': 'process crashed under concurrent use: ' +
+                         (re.search(r'(panic:[^\n]*|fatal error:[^\n]*)', out).group(1)), 'detail': out[-8000:]})
+        else:
+            raise api['Infra']('race run failed:\n' + out[-3000:])
+    ev['drivers'].append({'test': '+'.join(tests) + ' (-race)', 'race_reports': len(blocks), 'wall_s': 0})
+    # the tallies of the concurrent driver are validated like any other trace
+    tf = outdir + '/conc.ndjson'
+    if os.path.exists(tf):
+        traces = api['load_traces'](tf)
+        import json
+        for st in json.load(open(outdir + '/conc.status.json')):
+            if st['status'] != 'ok':
+                viol.append({'kind': st['status'], 'label': st['label'], 'key': '%s %s' % (st['status'], st['label']),
+                             'what': '%s under concurrent use in %s' % (st['status'], st['label']), 'detail': st.get('detail', '')[:6000]})
+        ok, hw, n, st_, tn = api['validate']('TraceConc', tf)
+        ev['trace_states'] += st_
+        ev['evaluations'] += len(traces)
+        ev['distinct_nontrivial'] += len(traces)
+        ev['trace_events'] += sum(len(t['lines']) for t in traces)
+        if ok:
+            ev['traces_validated_against_impl'] += len(traces)
+        else:
+            lines = open(tf).read().splitlines()
+            viol.append({'kind': 'reject', 'key': 'reject conc ' + lines[hw - 1][:120],
+                         'what': 'a call returned a result its sequential contract does not allow (or a goroutine never came back): ' + lines[hw - 1][:300]})
+        if traces and len(ev['samples']) < 4:
+            ev['samples'].append({'driver': 'TestConcurrent', 'scenario': traces[0]['label'], 'first_events': [api['compact'](x) for x in traces[0]['lines'][:10]]})
+    return viol
+
+
 CHECKS = {
+    'C11': {
+        'level': 'exploration',
+        'jobs': [
+            {'type': 'custom', 'name': 'lock-order', 'fn': lock_static, 'want': 'order'},
+            {'type': 'custom', 'name': 'race', 'fn': race_job, 'tests': ['TestConcurrent', 'TestSub', 'TestRaw'], 'n': {'quick': 8, 'thorough': 60}},
+            C('sub', 'TestSub', 'TraceSub', n={'quick': 40, 'thorough': 600}),
+        ],
+        'rule': 'race: the concurrent hammer (10 patterns x inproc and, shared among them, tcp / tls+tcp / ipc / ws; 2 senders, 2 receivers, option, context and '
+                'endpoint-churn goroutines per socket, hook-driven pipe closes, Close while running) plus the bubble drivers, all under the race detector; '
+                'one case per (pattern, transport); lock order: one case per function with lock activity',
+        'not_exhaustive': True,
+        'assumptions': ASSUME_COMMON + ['the Go race detector reports only real races; schedule coverage of the Go runtime is probabilistic'],
+    },
     'C12': {
         'level': 'model_checking',
         'jobs': [
